@@ -297,9 +297,11 @@ pub fn gen_spec(rng: &mut Rng, p: &Profile) -> Spec {
                 1 => Loc::Cookie,
                 _ => Loc::Query,
             };
-            let schema = match rng.below(8) {
+            let schema = match rng.below(10) {
                 0 => inl(s_arr(inl(s_string()))),
                 1 => inl(s_arr(inl(s_int()))),
+                8 => inl(s_arr(inl(s_arr(inl(s_int()))))),
+                9 => inl(s_arr(inl(s_arr(inl(s_string()))))),
                 2 if !obj_names.is_empty() => SRef::Ref(obj_names[rng.below(obj_names.len())].clone()),
                 _ => inl(prim(rng)),
             };
@@ -348,11 +350,17 @@ pub fn gen_spec(rng: &mut Rng, p: &Profile) -> Spec {
         if rng.chance(1, 3) {
             responses.push((404, None));
         }
+        let summary = doc(rng, p);
+        let description = match (&summary, rng.below(4)) {
+            (Some(s0), 0) if p.docs => Some(format!("{} and then some more detail.", s0)),
+            (Some(s0), 1) if p.docs => Some(s0.clone()),
+            _ => doc(rng, p),
+        };
         let op = Op {
             method: verb.to_string(),
             operation_id: opid,
-            summary: doc(rng, p),
-            description: doc(rng, p),
+            summary,
+            description,
             ext_docs: if p.docs && rng.chance(1, 4) { Some("https://example.com/docs".into()) } else { None },
             params,
             body,
@@ -394,7 +402,10 @@ pub fn gen_spec(rng: &mut Rng, p: &Profile) -> Spec {
     if p.servers {
         match rng.below(4) {
             0 => {}
-            1 | 2 => spec.servers.push(Server { url: "https://api.example.com/v1".into(), description: None }),
+            1 | 2 => {
+                let urls = ["https://api.example.com/v1", "https://api.example.com/", "https://api.example.com:8443/v1/", "https://{region}.example.com/v2", "http://localhost:3000"];
+                spec.servers.push(Server { url: urls[rng.below(urls.len())].into(), description: if rng.chance(1, 2) { Some("Production".into()) } else { None } })
+            }
             _ => {
                 spec.servers.push(Server { url: "https://api.example.com".into(), description: Some("Production server".into()) });
                 spec.servers.push(Server { url: "https://sandbox.example.com".into(), description: Some("Sandbox".into()) });
@@ -421,7 +432,12 @@ pub fn gen_spec(rng: &mut Rng, p: &Profile) -> Spec {
     }
     // ---- security
     if p.wild && rng.chance(1, 3) {
-        match rng.below(4) {
+        match rng.below(5) {
+            4 => {
+                // identifiers on which `sanitize` and a plain snake/pascal conversion differ
+                spec.schemes.push(("api_key2".into(), Scheme::ApiKey { loc: Loc::Header, name: "X-Api-Key-2".into() }));
+                spec.security.push(vec!["api_key2".into()]);
+            }
             0 => {
                 spec.schemes.push(("basicAuth".into(), Scheme::HttpBasic));
                 spec.security.push(vec!["basicAuth".into()]);
